@@ -56,6 +56,14 @@ pub fn run(rep: &mut Report) {
     hist::<Q8E0>(rep, h);
     hist::<Q16E1>(rep, h);
     hist::<Q32E2>(rep, h);
+    // the residual split rounds the accumulator up to three times: tie-directed states (threshold + one
+    // distant sticky term, as in C04) exercise exactly the rounding decisions of into_two/three_posits
+    fn ties<Q: QT>(rep: &mut Report, cases: u64) {
+        rep.generated(&format!("{} tie-directed histories (threshold + one distant sticky term); final state: from_bits(to_bits), neg, into_two/three_posits, clear", Q::NAME), cases, || super::quire::tie_history::<Q::P>(), |(steps, perm), l| run_history::<Q>(steps, *perm, &FL, l));
+    }
+    ties::<Q8E0>(rep, h / 4);
+    ties::<Q16E1>(rep, h / 2);
+    ties::<Q32E2>(rep, h);
 }
 
 pub fn replay(op: &str, args: &[u64]) -> Result<(), Viol> {
